@@ -21,6 +21,10 @@ COQ_CASE_TYPE = "case_t"
 SHARD = 120
 ALLOWED_AXIOMS = []
 TRUSTED = [
+    "semseg pipelines: the draws consumed inside image-only ('other') transforms are cut out of the recorded trace before "
+    "it is handed to the Coq model (they are not geometry parameters; semseg_geometry_trace); that every request path of "
+    "a seeded wrapper consumes the same draws is checked by the Python oracle on the outputs (all 7 request paths equal "
+    "the fused result), not by a Coq theorem; the semseg transforms record nothing in ctx (nothing to compare there)",
     "hand-written model coq/C14/Model.v of the parameter arithmetic of the crop / resized-crop / erasing / spec-augment "
     "/ semseg transforms, of SemsegTransformWrapper.getitem_xsemseg (same parameters applied to image and mask), of the "
     "einops patterns of (Un)Patchify(Image) as index maps, of x[:, permutation] and of norm/denorm over Q; tied to "
@@ -69,6 +73,8 @@ ASSUMPTIONS = [
     "rounds a side to 0 (1-pixel-wide inputs)",
     "float rounding in sqrt/exp/round and float32 products is outside the theorems (oracle values with a checked contract)",
     "non-semseg transforms inside a SemsegTransformWrapper pipeline are geometry preserving",
+    "request paths (image alone / mask alone / fused / ModeWrapper item orders) are compared for SEEDED wrappers only: "
+    "an unseeded wrapper draws from its transforms' own generators, separate requests legitimately differ",
     "spec-augment 'in bounds' claim 0 <= start, end <= size needs mask_param <= size (for larger parameters the "
     "mask is clipped by the axis, proved as masked_inside); mask_param <= 2^24 for the float32 theorem",
     "KDSemsegRandomResize rounds a side to 0 for 1-pixel-wide pairs scaled down (15x1, base 8x4, ratio 0.5 -> new "
@@ -84,7 +90,11 @@ ASSUMPTIONS = [
 RULE = ("kinds crop/two/simple/rrc/erase/spec/semseg/multi/patch/patch5/norm; image sides 1..48 (thorough ..200) incl. "
         "smaller than / equal to / one pixel off the target and aspect ratios up to 1:200, tensor and PIL inputs, paddings "
         "none/int/2/4-lists, pad_if_needed, semseg pipelines of 1-6 ops through SemsegTransformWrapper (seeded and "
-        "unseeded, direct and via ModeWrapper); non-trivial = the transform returned and made a draw or moved a pixel; "
+        "unseeded, direct and via ModeWrapper; 'other' ops are Identity or STOCHASTIC image-only transforms -- a "
+        "KDStochasticTransform consuming 1-5 random()/uniform()/normal()/integers()/permutation() draws of the sample's "
+        "generator, or the real KDAdditiveGaussianNoise -- placed before / between / after the random geometry ops; for "
+        "every seeded wrapper sample idx is requested again through getitem_x, getitem_semseg, getitem_xsemseg and "
+        "ModeWrapper modes 'x', 'semseg', 'x semseg', 'semseg x' and compared with the fused result); non-trivial = the transform returned and made a draw or moved a pixel; "
         "distinct by (kind, result code, sizes, targets, input type); every run: directed resize-only pairs (tie-heavy "
         "size pairs such as 2->7, 14->46, 26->22, tensor and PIL), 1-pixel-wide pairs through KDSemsegRandomResize, one "
         "exhaustive float32 probe of mask_param 1..2^24, PatchwiseTransform on 1..5 x 1..5 patch grids; crops and "
@@ -167,6 +177,11 @@ class SpyGen:
         self._tick()
         self.trace.append(["N"])
         return self.g.standard_normal(*a, **kw)
+
+    def normal(self, *a, **kw):
+        self._tick()
+        self.trace.append(["N"])
+        return self.g.normal(*a, **kw)
 
 
 def classify(e):
@@ -701,7 +716,33 @@ def decode_pair(x, seg):
     return xa, sa
 
 
-def build_semseg_transforms(ops, interp, log):
+def _stochastic_image_only(draws):
+    """an image-only KDStochasticTransform as SemsegTransformWrapper sees one (noise, colour jitter, random solarize,
+    ...): consumes the listed draws from the generator it was handed via set_rng and returns the image with unchanged
+    geometry (and, so that id-encoded images stay decodable, unchanged values)"""
+    from kappadata.transforms.base.kd_stochastic_transform import KDStochasticTransform
+
+    class StochasticImageOnly(KDStochasticTransform):
+        def __call__(self, x, ctx=None):
+            vals = []
+            for d in draws:
+                if d == "R":
+                    vals.append(float(self.rng.random()))
+                elif d == "U":
+                    vals.append(float(self.rng.uniform(0.6, 1.4)))
+                elif d == "N":
+                    vals.append(float(self.rng.normal(0.0, 1.0)))
+                elif d == "I":
+                    vals.append(int(self.rng.integers(0, 7)))
+                else:
+                    vals.append([int(v) for v in self.rng.permutation(4)])
+            if ctx is not None:
+                ctx[f"{self.ctx_prefix}.draws"] = vals
+            return x
+    return StochasticImageOnly
+
+
+def build_semseg_transforms(ops, interp, log, trace=None):
     from kappadata.transforms.identity import Identity
     from kappadata.transforms.semseg import (KDSemsegPad, KDSemsegRandomCrop, KDSemsegRandomHorizontalFlip,
                                              KDSemsegRandomResize, KDSemsegResize)
@@ -710,15 +751,20 @@ def build_semseg_transforms(ops, interp, log):
     ts = []
     for k, o in enumerate(ops):
         base = classes[o["op"]]
+        if o["op"] == "other" and o.get("draws"):
+            base = _stochastic_image_only(list(o["draws"]))
+        elif o["op"] == "other" and o.get("real") == "noise0":
+            from kappadata.transforms.kd_additive_gaussian_noise import KDAdditiveGaussianNoise
+            base = KDAdditiveGaussianNoise
 
         def make(base, k):
             class Marked(base):
                 def __call__(self, xs, ctx=None):
-                    log.append(["begin", k])
+                    log.append(["begin", k, len(trace) if trace is not None else 0])
                     try:
                         return super().__call__(xs, ctx=ctx)
                     finally:
-                        log.append(["end", k])
+                        log.append(["end", k, len(trace) if trace is not None else 0])
             Marked.__name__ = base.__name__
             return Marked
         M = make(base, k)
@@ -732,9 +778,25 @@ def build_semseg_transforms(ops, interp, log):
             ts.append(M(base_size=tuple(o["base"]), ratio=tuple(o["ratio"]), interpolation=interp))
         elif o["op"] == "resize":
             ts.append(M(size=tuple(o["size"]), interpolation=interp))
+        elif o.get("real") == "noise0":
+            ts.append(M(std=0.0))       # real stochastic image-only transform; noise of scale 0 keeps the ids decodable
         else:
             ts.append(M())
     return ts
+
+
+def semseg_geometry_trace(case, obs):
+    """the recorded draws without those consumed inside image-only ('other') transforms"""
+    skip = []
+    start = None
+    for e in obs["log"]:
+        if e[0] == "begin" and case["ops"][e[1]]["op"] == "other":
+            start = e[2] if len(e) > 2 else None
+        elif e[0] == "end" and case["ops"][e[1]]["op"] == "other":
+            if start is not None and len(e) > 2:
+                skip.append((start, e[2]))
+            start = None
+    return [t for i, t in enumerate(obs["trace"]) if not any(a <= i < b for a, b in skip)]
 
 
 def run_semseg(case):
@@ -756,7 +818,7 @@ def run_semseg(case):
         def __len__(self):
             return 3
 
-    ts = build_semseg_transforms(case["ops"], case["interp"], log)
+    ts = build_semseg_transforms(case["ops"], case["interp"], log, trace)
     idx = case.get("idx", 0)
     real_default_rng = np.random.default_rng
     seeds_asked = []
@@ -797,18 +859,47 @@ def run_semseg(case):
         obs["x_exact"] = bool(np.all(np.abs(xa - np.rint(xa)) < 1e-4))
         obs["pix_x"] = [int(v) for v in xi.reshape(-1)]
         obs["pix_seg"] = [int(v) for v in sa.astype(np.int64).reshape(-1)]
-    # seeded wrappers: x and semseg fetched separately see the same geometry
-    if case["seeded"] and case["interp"] == "nearest":
-        try:
-            np.random.default_rng = lambda seed=None: SpyGen(seed, [])
-            xs = w.getitem_x(idx, ctx={})
-            ss = w.getitem_semseg(idx, ctx={})
-            a, b = decode_pair(xs, ss)
-            obs["separate_equal"] = bool(a.shape == xa.shape and np.array_equal(a, xa) and np.array_equal(b, sa))
-        except Exception as e:  # noqa
-            obs["separate_equal"] = "exception " + repr(e)[:200]
-        finally:
-            np.random.default_rng = real_default_rng
+    # seeded wrappers: every way of requesting sample idx (fused, image alone, mask alone, through ModeWrapper in every
+    # item order) sees the same geometry -- all transforms of a sample share default_rng(seed + idx), consumed in list
+    # order, so every request has to consume the same draws
+    if case["seeded"]:
+        def same(a, b):
+            return bool(a.shape == b.shape and np.array_equal(a, b))
+
+        def first_diff(a, b):
+            if a.shape != b.shape:
+                return f"shape {list(a.shape)} instead of {list(b.shape)}"
+            bad = np.argwhere(a != b)[0]
+            return f"pixel {[int(v) for v in bad]} is {float(a[tuple(bad)])} instead of {float(b[tuple(bad)])}"
+
+        fetches = [
+            ("getitem_x", lambda: (w.getitem_x(idx, ctx={}), None)),
+            ("getitem_semseg", lambda: (None, w.getitem_semseg(idx, ctx={}))),
+            ("getitem_xsemseg again", lambda: w.getitem_xsemseg(idx, ctx={})),
+            ("ModeWrapper 'x'", lambda: (ModeWrapper(w, mode="x", return_ctx=False)[idx], None)),
+            ("ModeWrapper 'semseg'", lambda: (None, ModeWrapper(w, mode="semseg", return_ctx=False)[idx])),
+            ("ModeWrapper 'x semseg'", lambda: tuple(ModeWrapper(w, mode="x semseg", return_ctx=True)[idx][0])),
+            ("ModeWrapper 'semseg x'", lambda: tuple(ModeWrapper(w, mode="semseg x", return_ctx=False)[idx])[::-1]),
+        ]
+        alts = []
+        x_probe = xo.clone() if hasattr(xo, "clone") else xo.copy()
+        s_probe = so.clone() if hasattr(so, "clone") else so.copy()
+        for name, fn in fetches:
+            try:
+                np.random.default_rng = lambda seed=None: SpyGen(seed, [])
+                xs, ss = fn()
+                a, b = decode_pair(xs if xs is not None else x_probe, ss if ss is not None else s_probe)
+                bad = []
+                if xs is not None and not same(a, xa):
+                    bad.append("image: " + first_diff(a, xa))
+                if ss is not None and not same(b, sa):
+                    bad.append("mask: " + first_diff(b, sa))
+                alts.append([name, "; ".join(bad) if bad else True])
+            except Exception as e:  # noqa
+                alts.append([name, "exception " + repr(e)[:200]])
+            finally:
+                np.random.default_rng = real_default_rng
+        obs["alts"] = alts
     return obs
 
 
@@ -1327,8 +1418,10 @@ def oracle_semseg(case, obs):
     if case["seeded"]:
         if obs["seeds_asked"] != [case["seed"] + case.get("idx", 0)]:
             return f"wrapper seeded its generator with {obs['seeds_asked']}"
-        if obs.get("separate_equal") not in (None, True):
-            return f"getitem_x / getitem_semseg fetched separately differ from the fused result: {obs['separate_equal']}"
+        for name, res in obs.get("alts", []):
+            if res is not True:
+                return (f"sample {case.get('idx', 0)} requested through {name} differs from the fused getitem_xsemseg result "
+                        f"of the same seeded wrapper (the pair's members / the request paths see different geometry): {res}")
     return draws_in_range(obs["trace"])
 
 
@@ -1513,7 +1606,8 @@ def coq_case(case, obs):
         if not ok:
             return coq(C("KSemseg", Raw("[]"), case["H"], case["W"], Raw("[]"), code, Raw("[]"), 0, 0, Raw("None")))
         per = parse_semseg_log(case, obs)
-        rs = [t[1] for t in obs["trace"] if t[0] == "R"]
+        gtrace = semseg_geometry_trace(case, obs)      # draws of image-only transforms are not geometry parameters
+        rs = [t[1] for t in gtrace if t[0] == "R"]
         ops, gs = [], []
         ri = 0
         for o, calls in zip(case["ops"], per):
@@ -1547,7 +1641,7 @@ def coq_case(case, obs):
         pix = Raw("None")
         if "pix_x" in obs and case["content"] == "id":
             pix = Raw("(Some (" + coq(obs["pix_x"]) + ", " + coq(obs["pix_seg"]) + "))")
-        return coq(C("KSemseg", ops, case["H"], case["W"], Draws(obs["trace"]), code, gs,
+        return coq(C("KSemseg", ops, case["H"], case["W"], Draws(gtrace), code, gs,
                      obs["x_hw"][0], obs["x_hw"][1], pix))
     if k == "multi":
         wins = [RectT(e[2]) for e in obs["log"] if e[0] == "crop" and e[1] == "x"] if ok else []
@@ -1681,6 +1775,17 @@ def gen_spec(rng, big):
     return {"kind": "spec", "C": rng.choice([1, 2]), "T": T, "F": Fq, "tm": tm, "fm": fm, "seed": rng.randrange(10 ** 6)}
 
 
+def _gen_other(rng, stochastic=None):
+    """an image-only transform: deterministic (Identity), or stochastic = consumes draws of the sample's generator"""
+    if stochastic is None:
+        stochastic = rng.random() < 0.6
+    if not stochastic:
+        return {"op": "other"}
+    if rng.random() < 0.2:
+        return {"op": "other", "real": "noise0"}        # KDAdditiveGaussianNoise (tensor images)
+    return {"op": "other", "draws": [rng.choice("RRUNIP") for _ in range(rng.choice([1, 1, 2, 3, 5]))]}
+
+
 def gen_semseg(rng, big):
     n = rng.choice([1, 1, 2, 3, 3, 4, 5, 6])
     ops = []
@@ -1701,13 +1806,18 @@ def gen_semseg(rng, big):
         elif o == "resize":
             ops.append({"op": "resize", "size": [rng.randint(1, 20), rng.randint(1, 20)]})
         else:
-            ops.append({"op": "other"})
+            ops.append(_gen_other(rng))
     if rng.random() < 0.25:     # the canonical pipeline: resize, crop, flip, pad
         s = rng.randint(4, 12)
         ops = [{"op": "rresize", "base": [2 * s, s], "ratio": [0.5, 2.0]}, {"op": "crop", "size": [s, s], "mcr": 0.75},
                {"op": "flip", "p": 0.5}, {"op": "other"}, {"op": "pad", "size": [s, s]}]
+        if rng.random() < 0.5:  # ... with a stochastic image-only transform (noise / colour jitter) somewhere in front
+            ops.insert(rng.randrange(3), _gen_other(rng, stochastic=True))
     H, W = rng.randint(1, 40 if big else 20), rng.randint(1, 40 if big else 20)
     inp = rng.choice(["tensor", "tensor", "pil"])
+    if inp == "pil":
+        for o in ops:
+            o.pop("real", None)
     if inp == "pil":        # the category-ratio loop needs a tensor mask (semseg_crop.unique)
         for o in ops:
             if o["op"] == "crop":
@@ -1785,6 +1895,19 @@ def boundary_cases():
                                                   {"op": "pad", "size": [3, 4]}],
                         "H": H, "W": W, "inp": "tensor" if (H + W) % 2 else "pil", "content": "id", "interp": "nearest",
                         "seeded": bool(H % 2), "via": "direct", "idx": 0, "seed": H * 5 + W})
+    # seeded wrappers with a stochastic image-only transform before / between the random geometry transforms: the image,
+    # the mask and the fused pair of one sample are requested separately and through every ModeWrapper item order
+    for n, draws in enumerate((["R"], ["U", "N"], ["I"], ["P", "R", "R"])):
+        for pos in (0, 1):
+            ops = [{"op": "crop", "size": [4, 5], "mcr": 1.0}, {"op": "flip", "p": 0.5}, {"op": "pad", "size": [5, 5]}]
+            ops.insert(pos, {"op": "other", "draws": draws})
+            out.append({"kind": "semseg", "ops": ops, "H": 9 + n, "W": 12 - n, "inp": "tensor" if pos else "pil",
+                        "content": "id", "interp": "nearest", "seeded": True, "via": "direct" if n % 2 else "mode",
+                        "idx": n % 3, "seed": 11 * n + pos})
+    out.append({"kind": "semseg", "ops": [{"op": "other", "real": "noise0"}, {"op": "rresize", "base": [12, 8], "ratio": [0.5, 2.0]},
+                                          {"op": "crop", "size": [6, 6], "mcr": 0.75}, {"op": "flip", "p": 0.5}],
+                "H": 10, "W": 14, "inp": "tensor", "content": "id", "interp": "nearest", "seeded": True, "via": "direct",
+                "idx": 1, "seed": 3})
     # 1-pixel-wide pairs through KDSemsegRandomResize: the target rounds a side to 0 and torchvision raises (counted in
     # the histogram as "semseg:resize target rounds a side to 0 (torchvision rejects)")
     for (H, W) in ((15, 1), (1, 15), (1, 1), (2, 40)):
@@ -1862,8 +1985,13 @@ def shrink(c):
         for i in range(len(c["ops"])):
             if len(c["ops"]) > 1:
                 yield {**c, "ops": c["ops"][:i] + c["ops"][i + 1:]}
+        for i, o in enumerate(c["ops"]):
+            if o.get("real"):
+                yield {**c, "ops": c["ops"][:i] + [{"op": "other", "draws": ["U", "N"]}] + c["ops"][i + 1:]}
+            if len(o.get("draws", [])) > 1:
+                yield {**c, "ops": c["ops"][:i] + [{"op": "other", "draws": o["draws"][:-1]}] + c["ops"][i + 1:]}
         if c["inp"] != "tensor":
-            yield {**c, "inp": "tensor"}
+            yield {**c, "inp": "tensor", "ops": [{k: v for k, v in o.items() if k != "real"} for o in c["ops"]]}
         if c["via"] != "direct":
             yield {**c, "via": "direct"}
         if c.get("idx"):
@@ -1913,6 +2041,14 @@ def features(case, obs):
         yield f"semseg:n_ops={len(case['ops'])}"
         yield f"semseg:seeded={case['seeded']} via={case['via']}"
         yield f"semseg:content={case['content']} interp={case['interp']}"
+        geo = [i for i, o in enumerate(case["ops"]) if o["op"] in ("crop", "flip", "rresize")]
+        sto = [i for i, o in enumerate(case["ops"]) if o["op"] == "other" and (o.get("draws") or o.get("real"))]
+        if sto:
+            yield ("semseg:stochastic image-only transform "
+                   + ("before a random geometry transform" if geo and min(sto) < max(geo) else "after all random geometry")
+                   + f", seeded={case['seeded']}")
+        if "alts" in obs:
+            yield f"semseg:request paths compared with the fused result={len(obs['alts'])}"
         for o in case["ops"]:
             yield "semseg:op=" + o["op"]
         if obs.get("code") == 0:
